@@ -129,6 +129,23 @@ func c12(c *wk.Ctx) {
 						c.Viol("C12", idx, "crash/torn-file-accepted", fmt.Sprintf("prefix %d of %d bytes loaded as %s", cut, len(full), sessStr(got)), string(full[:cut]))
 					}
 					c.Distinct("crash", k, cut)
+					// the same crash seen by a loader that has successfully loaded this path before
+					if cut%7 == 3 {
+						warm := session.NewFromFile(q)
+						os.WriteFile(q, full, 0o600)
+						if _, werr := warm.Load(); werr == nil {
+							os.WriteFile(q, full[:cut], 0o600)
+							var g2 *session.Session
+							var e2 error
+							pan2, pm2, st2 := wk.Guard(func() { g2, e2 = warm.Load() })
+							c.Count("crash.prefixes_warm_loader", 1)
+							if pan2 {
+								c.Viol("C12", idx, "crash/panic/"+st2, pm2, nil)
+							} else if e2 == nil {
+								c.Viol("C12", idx, "crash/torn-file-accepted-by-warm-loader", fmt.Sprintf("a loader that had loaded the path before returned %s for a file cut to %d of %d bytes", sessStr(g2), cut, len(full)), string(full[:cut]))
+							}
+						}
+					}
 				}
 				os.Remove(p + ".torn")
 			}
@@ -193,13 +210,24 @@ func c12history(c *wk.Ctx, idx int, r *rand.Rand, path string, coarse bool) {
 		loaders[i] = session.NewFromFile(path)
 	}
 	var model *session.Session
+	pool := []*session.Session{c12session(r), c12session(r), c12session(r)}
 	nops := 1 + r.Intn(8)
+	if r.Intn(3) == 0 {
+		nops = 6 + r.Intn(8)
+	}
 	hist := ""
 	for op := 0; op < nops; op++ {
 		li := r.Intn(nl)
 		if r.Intn(2) == 0 {
 			s := c12session(r)
-			hist += fmt.Sprintf("S%d ", li)
+			if r.Intn(2) == 0 {
+				pi := r.Intn(len(pool))
+				cp := *pool[pi] // the same value stored again (possibly by another loader in between)
+				s = &cp
+				hist += fmt.Sprintf("S%d=p%d ", li, pi)
+			} else {
+				hist += fmt.Sprintf("S%d ", li)
+			}
 			var err error
 			pan, pm, st := wk.Guard(func() { err = loaders[li].Store(s) })
 			if pan || err != nil {
